@@ -20,6 +20,11 @@ const (
 	scHuge      = "huge"
 	scTiny      = "tiny"
 	scSeparated = "separated" // well separated eigenvalues, small off-diagonal part (near normal)
+	// scNegligible: every diagonal block is [1 e; -e 1] with e = 2^-70: equal
+	// complex pairs with negligible imaginary part (as the QR algorithm leaves
+	// them for a multiple real eigenvalue); the 2x2 complex systems solved by
+	// Dtrevc3 are then below its singularity threshold smin.
+	scNegligible = "repeated-2x2-blocks-with-negligible-offdiagonals"
 )
 
 var schurClasses = []string{scMixed, scReal, scComplex, scRepeated, scGraded, scSeparated, scHuge, scTiny}
@@ -42,7 +47,7 @@ func schurGen(r *vrt.Rand, cls string, n int) *ref.M {
 		two := false
 		switch cls {
 		case scReal, scRepeated:
-		case scComplex:
+		case scComplex, scNegligible:
 			two = i+1 < n
 		default:
 			two = i+1 < n && r.Intn(3) == 0
@@ -51,6 +56,8 @@ func schurGen(r *vrt.Rand, cls string, n int) *ref.M {
 		switch cls {
 		case scRepeated:
 			d = float64(i % 2)
+		case scNegligible:
+			d = 1
 		case scSeparated:
 			d = 0.5 * float64(perm[i]-n/2)
 		default:
@@ -61,6 +68,9 @@ func schurGen(r *vrt.Rand, cls string, n int) *ref.M {
 			c := -r.Uniform(0.2, 1.5)
 			if cls == scSeparated {
 				b, c = 0.2, -0.2*(1+0.1*float64(perm[i]))
+			}
+			if cls == scNegligible {
+				b, c = math.Ldexp(1, -70), -math.Ldexp(1, -70)
 			}
 			if r.Bool() {
 				b, c = -b, -c
@@ -184,6 +194,12 @@ func (h *H) checkTrevc3(id string, idx, n int, cls string) {
 	q := randOrtho(rng, n)
 	aq := ref.Mul(q, ref.Mul(t, q.T()))
 	cfg := 0
+	special := ""
+	if cls == scNegligible {
+		// One path class, one clause whatever the options.
+		special = "input=" + cls
+		cs.sigClause = "eigenvector-computation-fails"
+	}
 	sides := []lapack.EVSide{lapack.EVBoth, lapack.EVRight, lapack.EVLeft}
 	hows := []lapack.EVHowMany{lapack.EVAll, lapack.EVAllMulQ, lapack.EVSelected}
 	for _, side := range sides {
@@ -198,6 +214,9 @@ func (h *H) checkTrevc3(id string, idx, n int, cls string) {
 				}
 				pad := (cfg + idx) % 3 * 2
 				tag := fmt.Sprintf("side=%c howmny=%c", rune(side), rune(how))
+				if special != "" {
+					tag = special
+				}
 				wantl := side != lapack.EVRight
 				wantr := side != lapack.EVLeft
 				// Selection: pairs marked on the first, second or both positions.
@@ -776,6 +795,11 @@ func (h *H) planSchur(add addFn) {
 				if n >= 2 && n <= 60 {
 					add("trexc", 30*n*n*n, func() { h.checkTrexc(fmt.Sprintf("trexc n=%d class=%s #%d", n, cls, i), i, n, cls) })
 				}
+			}
+			if n >= 4 {
+				idx++
+				i, n := idx, n
+				add("trevc", 30*n*n*n, func() { h.checkTrevc3(fmt.Sprintf("trevc n=%d class=%s #%d", n, scNegligible, i), i, n, scNegligible) })
 			}
 			for ci, cls := range squareClasses {
 				if !h.thorough() && (si+ci)%2 != 0 && n > 34 {
